@@ -511,7 +511,7 @@ func (c *Ctx) ruleAdjRibStoresIncoming() {
 				}
 				switch a := st.Addr.(type) {
 				case *ssa.IndexAddr:
-					if st.Val == path {
+					if sameSym(st.Val, path) { // the same value, or a reload of the same (captured) loop variable
 						if ul, ok := a.X.(*ssa.UnOp); ok {
 							if f2, ok := ul.X.(*ssa.FieldAddr); ok && ir.FieldOf(f2) == kpl {
 								return true
@@ -525,7 +525,7 @@ func (c *Ctx) ruleAdjRibStoresIncoming() {
 								for _, arg := range call.Call.Args[1:] {
 									if els, ok := sliceLiteralElems(arg); ok {
 										for _, el := range els {
-											if el == path {
+											if sameSym(el, path) {
 												return true
 											}
 										}
